@@ -59,13 +59,13 @@ func applyOp(tr trackerT, plan Plan, op HOp, uid int) error {
 	switch op.Kind {
 	case opLogin:
 		return tr.RemoteLogin(common.RemoteUserLogin{Source: identityEvent(op.K, plan.Pid[op.K], time.Now().UTC()),
-			PID: plan.Pid[op.K], CredUserID: "cred" + strconv.Itoa(op.K)})
+			PID: plan.Pid[op.K], CredUserID: "cred" + strconv.Itoa(userIdx(op.K, plan.Pid[op.K]))})
 	case opRec:
 		return tr.AuditdEvent(vlib.APIEvent(plan.Sid[op.K], auparse.AUDIT_LOGIN, strconv.Itoa(plan.Pid[op.K]), ts, seq, "success"))
 	case opEv:
 		return tr.AuditdEvent(vlib.APIEvent(plan.Sid[op.K], auparse.AUDIT_USER_CMD, strconv.Itoa(plan.Pid[op.K]+10000), ts, seq, "success"))
 	case opCD:
-		return tr.AuditdEvent(vlib.APIEvent(plan.Sid[op.K], auparse.AUDIT_CRED_DISP, strconv.Itoa(cdPid(plan.Pid[op.K], uid)), ts, seq, "success"))
+		return tr.AuditdEvent(vlib.APIEvent(plan.Sid[op.K], auparse.AUDIT_CRED_DISP, strconv.Itoa(cdPid(plan.Pid[op.K], uid)), ts, seq, resultOf(uid)))
 	case opUnknown:
 		return tr.AuditdEvent(vlib.APIEvent("9"+strconv.Itoa(90000+op.K), auparse.AUDIT_USER_CMD, "78", ts, seq, "success"))
 	case opClean:
